@@ -255,14 +255,18 @@ CHECKS = {
                 "and seeded payload bytes; every (3rd in quick) byte of MANIFEST) and seeded offsets; truncation to every frame boundary -1/0/+1, "
                 "to 0, to the header and seeded lengths. Strict recovery (in a subprocess when a corrupted size field could abort on allocation; "
                 "an abort is a refusal) must fail or return exactly the pre-damage collection; the property's exclusion is applied by effect "
-                "(only a suffix of the NEWEST listed segment lost, judged with an independent reference replay). distinct_nontrivial = distinct "
-                "(case, fault) pairs",
-        "legs": [{"name": "single-faults", "argv": ["c13"], "shards": 16}],
+                "(only a suffix of the NEWEST listed segment lost, judged with an independent reference replay). Leg server-start-up: the "
+                "directory is produced by the REAL kyrodb_server (gRPC history with CreateSnapshot, forced drains and graceful restarts, clean "
+                "SIGTERM shutdown); every deletion plus a seeded sample (quick 10, thorough 60 per directory) of the same fault enumeration is "
+                "applied to a copy and the real server is started on it: it must refuse to start or serve exactly the pre-damage census. "
+                "distinct_nontrivial = distinct (case, fault) pairs",
+        "legs": [{"name": "single-faults", "argv": ["c13"], "shards": 16},
+                 {"name": "server-start-up", "argv": ["c13", "--leg", "server"], "bin_args": {"server": "server"}, "shards": 16, "timeout_q": 1800}],
         "assumptions": COMMON_ASSUME + ["the harness's reference replay of the undamaged directory must equal the model (else the case is inconclusive)"],
         "min_evaluations": 1000,
         "level_text": "enumeration of single storage faults (structural bit flips, truncations, deletions) on directories from seeded histories, each "
                       "decided by the real strict recovery against the pre-damage model; fault enumeration over sampled directories, not proof",
-        "level_note": "multi-fault damage and faults at non-enumerated offsets are out of reach; server start-up policy (MANIFEST deleted) is judged in the server leg",
+        "level_note": "multi-fault damage and faults at non-enumerated offsets are out of reach; the server's start-up policy (MANIFEST deleted => it used to start empty) is judged in leg server-start-up",
         "technique": "runtime monitoring: single-fault injection on persisted state + recovery oracle",
     },
     "C12": {
